@@ -58,7 +58,7 @@ def run(tier):
     rnd = random.Random(common.seed())
     common.build("plain")
     wd = common.workdir("c04")
-    r = common.tlc("DeltaImpl", "MC_DeltaImpl.cfg", workers=8, timeout=600)
+    r = common.tlc("DeltaImpl", "MC_DeltaImpl.cfg" if tier != "thorough" else common.cfg_variant("MC_DeltaImpl.cfg", wd, NC=5, Local="{2, 4}", MaxCrash=3), workers=8, timeout=1800, heap="8g")
     ck.require_ok("DeltaImpl", r); ck.add_tlc("DeltaImpl/MC_DeltaImpl.cfg (DoneMeansB, Exactness, PartialNeverValid, Converges)", r, "4 chunks, every initial disk in {full,part,zero,junk}^4 x 3 header states, chunks 2,3 local, limit 2, up to 2 crashes")
     scs = []
     n = 260 if tier == "quick" else 1500
